@@ -15,7 +15,7 @@ def random_orthogonal(rng, d):
 
 
 def well_formed(rng, d=None, n_classes=None, variant='plain', dmax=8,
-                min_class=4, nmax=None):
+                min_class=4, nmax=None, labels='range', order='C'):
   """A well-formed labelled dataset in the sense of the C01/C03 quantifier:
   2<=d<=8 continuous features, n >= 4d, >=2 classes with >=4 members each."""
   d = int(d if d is not None else rng.randint(2, dmax + 1))
@@ -61,6 +61,12 @@ def well_formed(rng, d=None, n_classes=None, variant='plain', dmax=8,
   w = rng.randn(d)
   t = X.astype(float).dot(w) / (np.abs(X).max() + 1e-300) + \
       0.1 * rng.randn(n)
+  if labels == 'sparse':
+    # class labels need not be 0..C-1 (nor sorted by first occurrence)
+    names = rng.choice(np.arange(1, 60), size=c, replace=False)
+    y = names[y]
+  if order == 'F':
+    X = np.asfortranarray(X)
   return {'X': X, 'y': y, 't': t, 'd': d, 'n': n, 'classes': c,
           'variant': variant}
 
